@@ -1,20 +1,22 @@
 import BumpProof.Str.Model
 namespace Str
 
-theorem charRange (c : Char) : c.toNat < 0xD800 ∨ (0xDFFF < c.toNat ∧ c.toNat < 0x110000) := by
-  have := c.valid
-  simpa [UInt32.isValidChar, Nat.isValidChar] using this
+macro "list_pw" : tactic => `(tactic| (
+  apply List.ext_getElem?
+  intro i
+  simp only [List.getElem?_append, List.getElem?_take, List.getElem?_drop, List.length_append,
+    List.length_take, List.length_drop]
+  repeat' split
+  all_goals first
+    | rfl
+    | omega
+    | (congr 1; omega)
+    | (rw [List.getElem?_eq_none (by omega)])
+    | (symm; rw [List.getElem?_eq_none (by omega)])))
 
-theorem u8 (n : Nat) : (UInt8.ofNat n).toNat = n % 256 := by simp
-
-theorem decodeFirst_encodeChar_append (c : Char) (r : Bytes) :
-    decodeFirst (encodeChar c ++ r) = some (c, r) := by
-  have hv := charRange c
-  unfold encodeChar String.utf8EncodeChar
-  simp only [Char.toNat_val]
-  generalize hn : c.toNat = v at *
-  split
-  · simp [decodeFirst]
-    sorry
-  · sorry
+example (buf data : Bytes) (len idx : Nat) (h : len + data.length ≤ buf.length) (hi : idx ≤ len) :
+   ((List.take idx (List.take (idx + data.length) buf ++ List.take (len - idx) (List.drop idx buf) ++ List.drop (idx + data.length + (len - idx)) buf)) ++ data ++
+     List.drop (idx + data.length) (List.take (idx + data.length) buf ++ List.take (len - idx) (List.drop idx buf) ++ List.drop (idx + data.length + (len - idx)) buf)).take (len + data.length)
+    = (buf.take len).take idx ++ data ++ (buf.take len).drop idx := by
+  list_pw
 end Str
